@@ -204,4 +204,57 @@ theorem offsetInv_tight {st : St} (h : OffsetInv st) : TightActive st := by
   have := slack_same_block st c h3
   linarith
 
+/-! ### split -/
+
+/-- same size, and every variable keeps its offset -/
+def SameOffsets (a b : Array Var) : Prop :=
+  a.size = b.size ∧ ∀ i : Nat, (a[i]!).offset = (b[i]!).offset
+
+theorem SameOffsets.refl (a : Array Var) : SameOffsets a a := ⟨rfl, fun _ => rfl⟩
+theorem SameOffsets.trans {a b c : Array Var} (h1 : SameOffsets a b) (h2 : SameOffsets b c) :
+    SameOffsets a c := ⟨h1.1.trans h2.1, fun i => (h1.2 i).trans (h2.2 i)⟩
+
+theorem sameOffsets_setBlock (vars : Array Var) (v nb : Nat) :
+    SameOffsets (vars.set! v { vars[v]! with block := nb }) vars := by
+  refine ⟨by simp, fun i => ?_⟩
+  rw [get!_set!]
+  split
+  · rename_i h; rw [h.1]
+  · rfl
+
+theorem populateSplit_offsets (cons : Array Con) (old nb : Nat) :
+    ∀ (fuel : Nat) (vars : Array Var) (mem : Array Nat) (v : Nat) (u : Option Nat),
+      SameOffsets (populateSplit cons old nb fuel vars mem v u).1 vars := by
+  intro fuel
+  induction fuel with
+  | zero => intro vars mem v u; exact SameOffsets.refl _
+  | succ fuel ih =>
+    intro vars mem v u
+    unfold populateSplit
+    simp only
+    apply Array.foldl_induction (motive := fun _ (acc : Array Var × Array Nat × Bool) => SameOffsets acc.1 vars)
+    · apply Array.foldl_induction (motive := fun _ (acc : Array Var × Array Nat × Bool) => SameOffsets acc.1 vars)
+      · exact sameOffsets_setBlock vars v nb
+      · intro i acc hm
+        obtain ⟨vs, mm, ok⟩ := acc
+        simp only
+        split
+        · exact (ih _ _ _ _).trans hm
+        · exact hm
+    · intro i acc hm
+      obtain ⟨vs, mm, ok⟩ := acc
+      simp only
+      split
+      · exact (ih _ _ _ _).trans hm
+      · exact hm
+
+/-- `Block::split` moves variables between blocks but never changes an offset, and only clears the
+    `active` flag of the split constraint -/
+theorem split_offsets (st : St) (old ci : Nat) :
+    SameOffsets (st.split old ci).1.vars st.vars ∧
+    (st.split old ci).1.cons = st.cons.set! ci { st.cons[ci]! with active := false } := by
+  unfold St.split
+  simp only [St.refreshBlock]
+  exact ⟨(populateSplit_offsets _ _ _ _ _ _ _ _).trans (populateSplit_offsets _ _ _ _ _ _ _ _), trivial⟩
+
 end AdaptaVerif.Lemmas.VpscHistory
